@@ -69,9 +69,15 @@ Legacy(o, p, m) ==
   IN Emit(a, ir, ImplValidateLegacy(o, p, m))
 
 PointSeqs == [1..NPoints -> GU \X GR]
+\* curves with four and with all five point slots in use (no padding entry at all): fixed ascending utilizations, every
+\* assignment of rates from a three-value grid, every zero / hundred rate
+FullU == <<BOne, BOfStr("1431655765"), BOfStr("2147483647"), BOfStr("4294967294"), U32M>>
+GR3 == {BZero, BOfStr("2147483647"), U32M}
+FullSeqs(n) == [1..n -> GR3]
 Init == phase = "root" /\ sid = 0 /\ TLCSet(1, 1)
 Next == /\ phase = "root"
         /\ \/ \E z \in GR, h \in GR, ps \in PointSeqs : SevenPoint(z, h, [i \in 1..NPoints |-> <<ps[i][1], ps[i][2]>>])
+           \/ \E n \in {4, 5}, z \in GR, h \in GR : \E rs \in FullSeqs(n) : SevenPoint(z, h, [i \in 1..n |-> <<FullU[i], rs[i]>>])
            \/ \E o \in LegacyGrid, p \in LegacyGrid, m \in LegacyGrid : Legacy(o, p, m)
 Spec == Init /\ [][Next]_vars
 =============================================================================
